@@ -145,9 +145,10 @@ static char g_pseudo[64];
 static std::string describe(uintptr_t a) {
     char b[200];
     if (a >= (uintptr_t)g_pseudo && a < (uintptr_t)g_pseudo + sizeof g_pseudo) {
-        static const char *nm[] = { "strtok()", "strerror()", "rand()/srand()", "setlocale()", "getenv()/setenv() (the process environment)" };
+        static const char *nm[] = { "strtok()", "strerror()", "rand()/srand()", "setlocale()", "getenv()/setenv() (the process environment)",
+                                    "hcreate()/hsearch()/hdestroy() (the one process-wide hash table)", "localtime()/gmtime()/asctime()/ctime() (their static result)", "random()/srandom()/drand48()/lrand48()" };
         size_t k = (size_t)(a - (uintptr_t)g_pseudo);
-        snprintf(b, sizeof b, "the hidden process-global state of libc's %s", k < 5 ? nm[k] : "?"); return b;
+        snprintf(b, sizeof b, "the hidden process-global state of libc's %s", k < 8 ? nm[k] : "?"); return b;
     }
     if (__start_eavdata && a >= (uintptr_t)__start_eavdata && a < (uintptr_t)__stop_eavdata) { snprintf(b, sizeof b, "libeav static storage (.data +%zu)", (size_t)(a - (uintptr_t)__start_eavdata)); return b; }
     if (__start_eavbss && a >= (uintptr_t)__start_eavbss && a < (uintptr_t)__stop_eavbss) { snprintf(b, sizeof b, "libeav static storage (.bss +%zu)", (size_t)(a - (uintptr_t)__start_eavbss)); return b; }
@@ -592,8 +593,10 @@ static void ctor_block_add(void *p) { if (g_in_ctor && p) g_ctor_blocks.push_bac
 static void ctor_block_del(void *p) { if (g_ctor_blocks.empty() || !p) return; for (size_t i = 0; i < g_ctor_blocks.size(); i++) if (g_ctor_blocks[i] == p) { g_ctor_blocks.erase(g_ctor_blocks.begin() + (long)i); return; } }
 size_t library_constructors() { return __start_eavinit ? (size_t)(__stop_eavinit - __start_eavinit) : 0; }
 size_t library_exit_handlers() { return g_atexit.size() + (__start_eavfini ? (size_t)(__stop_eavfini - __start_eavfini) : 0); }
+extern "C" void reset_hidden_libc_state();
 void reset_library_globals() {
     g_sync.clear();         // pthread_once / mutex state lives with the statics it guards
+    reset_hidden_libc_state();
     if (__start_eavdata && !g_pristine.empty()) __real_memcpy(__start_eavdata, g_pristine.data(), g_pristine.size());
     if (__start_eavbss) __real_memset(__start_eavbss, 0, (size_t)(__stop_eavbss - __start_eavbss));
     g_atexit.clear();
@@ -791,6 +794,24 @@ static void on_pseudo_read(int slot, uintptr_t pc_abs) {
     check_byte(t_tid, (uintptr_t)&g_pseudo[slot], false, pc);
 }
 // libc interfaces with hidden process-global state: a call is a write to that state
+// more MT-Unsafe libc interfaces with one hidden state per process
+#include <search.h>
+int __real_hcreate(size_t); ENTRY *__real_hsearch(ENTRY, ACTION); void __real_hdestroy(void);
+static bool g_h_created = false;
+int __wrap_hcreate(size_t n) { on_pseudo_write(5, PC); int r = __real_hcreate(n); if (r) g_h_created = true; return r; }
+ENTRY *__wrap_hsearch(ENTRY e, ACTION a) { on_pseudo_write(5, PC); return __real_hsearch(e, a); }
+void __wrap_hdestroy(void) { on_pseudo_write(5, PC); g_h_created = false; __real_hdestroy(); }
+void reset_hidden_libc_state() { if (g_h_created) { __real_hdestroy(); g_h_created = false; } }     // a new simulated process has no table
+struct tm *__real_localtime(const time_t *); struct tm *__real_gmtime(const time_t *); char *__real_asctime(const struct tm *); char *__real_ctime(const time_t *);
+struct tm *__wrap_localtime(const time_t *t) { on_pseudo_write(6, PC); return __real_localtime(t); }
+struct tm *__wrap_gmtime(const time_t *t) { on_pseudo_write(6, PC); return __real_gmtime(t); }
+char *__wrap_asctime(const struct tm *t) { on_pseudo_write(6, PC); return __real_asctime(t); }
+char *__wrap_ctime(const time_t *t) { on_pseudo_write(6, PC); return __real_ctime(t); }
+long __real_random(void); void __real_srandom(unsigned); double __real_drand48(void); long __real_lrand48(void);
+long __wrap_random(void) { on_pseudo_write(7, PC); return __real_random(); }
+void __wrap_srandom(unsigned s) { on_pseudo_write(7, PC); __real_srandom(s); }
+double __wrap_drand48(void) { on_pseudo_write(7, PC); return __real_drand48(); }
+long __wrap_lrand48(void) { on_pseudo_write(7, PC); return __real_lrand48(); }
 char *__wrap_strtok(char *s, const char *d) { on_pseudo_write(0, PC); return __real_strtok(s, d); }
 char *__wrap_strerror(int e) { on_pseudo_write(1, PC); return __real_strerror(e); }
 int __wrap_rand(void) { on_pseudo_write(2, PC); return __real_rand(); }
